@@ -187,6 +187,8 @@ _NP_FUNCS = {
     "swapaxes": lambda a, i, j: np.swapaxes(_arr(a), i, j),
     "cross": lambda a, b: _cross(_arr(a), _arr(b)),
     "zeros_like": lambda a, **k: np.zeros(_arr(a).shape),
+    "empty_like": lambda a, **k: np.full(_arr(a).shape, Sym.atom("<uninitialised>"), dtype=object) if _arr(a).dtype == object else np.full(_arr(a).shape, np.nan),
+    "ones_like": lambda a, **k: np.ones(_arr(a).shape),
     "atleast_2d": lambda a: np.atleast_2d(_arr(a)),
     "atleast_1d": lambda a: np.atleast_1d(_arr(a)),
     "ix_": lambda *a: np.ix_(*[np.asarray(x, dtype=int) for x in a]),
